@@ -72,6 +72,26 @@ def recursive_case(case, ctx):
                 require(hi >= mn and lo <= mx, "recursive-length-out-of-range", lambda: "%s: clipped span length %d" % (desc, ln))
             else:
                 require(mn <= ln - 2 * fl <= mx, "recursive-length-out-of-range", lambda: "%s: length %d - 2 flanks" % (desc, ln))
+    if case.get("reuse_buffer"):
+        # the caller refills the same buffer with other values and calls again: the second table must describe the new contents
+        if case["form"] == "torch":
+            arg.copy_(torch.flip(arg, dims=(-1,)) * -1)
+            X2 = arg.numpy().astype(numpy.float64)
+        else:
+            arg[:] = -arg[:, ::-1].copy()
+            X2 = arg.astype(numpy.float64)
+        try:
+            df2 = recursive_seqlets(arg, threshold=thr, min_seqlet_len=mn, max_seqlet_len=mx, additional_flanks=fl)
+        except ZeroDivisionError as e:
+            raise Rejected() from e
+        for r in df2.itertuples(index=False):
+            e, s_, t_, attr = int(r[0]), int(r[1]), int(r[2]), float(r[3])
+            require(0 <= e < n and 0 <= s_ < t_ <= L, "recursive-span-outside-example", lambda: "second call on the refilled buffer: [%d, %d)" % (s_, t_))
+            want = X2[e, s_:t_].sum()
+            tol = 1e-9 * (1 + abs(want)) if case["dtype"] == "float64" else 1e-4 * (1 + numpy.abs(X2[e, :t_]).sum())
+            require(abs(attr - want) <= tol, "recursive-second-call-describes-old-contents",
+                    lambda: "%s: after refilling the same buffer, span [%d, %d) reports %.6g but the buffer now sums to %.6g there" % (desc, s_, t_, attr, want))
+        ctx.label("buffer_refilled_between_calls")
     ctx.nt(len(df) >= 1)
     if clipped:
         ctx.label("flank_clipped_at_edge")
@@ -132,7 +152,7 @@ def recursive_strategy(draw):
     mn = draw(st.integers(3, 10))
     case.update({"threshold": draw(st.sampled_from([0.001, 0.01, 0.01, 0.05, 0.2])), "min_len": mn,
                  "max_len": mn + draw(st.integers(2, 20)), "flanks": draw(st.sampled_from([0, 0, 1, 2, 3, 5])),
-                 "form": draw(st.sampled_from(["torch", "numpy"]))})
+                 "form": draw(st.sampled_from(["torch", "numpy"])), "reuse_buffer": draw(st.integers(0, 2)) == 0})
     return case
 
 
